@@ -723,6 +723,10 @@ struct GJob {
     fresh: bool,   // a napping job that certainly has not finished: no statement since it started let time pass
     stopped: bool, // stopped by `k STOP`, not yet continued
     igniq: bool,   // started without job control: ignores SIGINT and SIGQUIT
+    dead: bool,    // killed by a signal of the script (its cause of death must stand)
+    doomed: bool,  // sent a signal its parent traps: the signal may still be pending (blocked) until the child's
+                   // entry step; until virtual time has passed another signal could become the cause of death
+    exited: bool,  // not a napping job, and virtual time has passed since it started: it has certainly exited
 }
 
 /// Programs around the job table and signals: every operand form of `wait`, jobs killed, stopped and
@@ -738,14 +742,14 @@ fn gen_jobs_program(r: &mut Rng, thorough: bool) -> String {
     let mut clean = true; // nothing removed from / stopped in the table since then
     let mut monitor = false;
     let new_job = |jobs: &mut Vec<GJob>, epoch: &mut Vec<usize>, kind: JKind, monitor: bool| {
-        jobs.push(GJob { kind, open: true, fresh: kind == JKind::Nap, stopped: false, igniq: !monitor });
+        jobs.push(GJob { kind, open: true, fresh: kind == JKind::Nap, stopped: false, igniq: !monitor, dead: false, doomed: false, exited: false });
         epoch.push(jobs.len());
     };
     if r.chance(1, 4) {
         // jobs 1 (waited for inside) and 2 (the helper, left open)
         stmts.push(format!("{} {}", if r.chance(1, 2) { "sc" } else { "scp" }, r.pick(&STATUSES)));
-        jobs.push(GJob { kind: JKind::St, open: false, fresh: false, stopped: false, igniq: true });
-        jobs.push(GJob { kind: JKind::Other, open: true, fresh: false, stopped: false, igniq: true });
+        jobs.push(GJob { kind: JKind::St, open: false, fresh: false, stopped: false, igniq: true, dead: false, doomed: false, exited: true });
+        jobs.push(GJob { kind: JKind::Other, open: true, fresh: false, stopped: false, igniq: true, dead: false, doomed: false, exited: false });
         epoch = vec![2];
         clean = true; // the table was emptied by `wait $!` before the helper was inserted
     }
@@ -768,7 +772,12 @@ fn gen_jobs_program(r: &mut Rng, thorough: bool) -> String {
             7..=10 => {
                 // a signal to a napping job that is certainly alive
                 let c: Vec<usize> = (0..jobs.len()).filter(|i| jobs[*i].open && jobs[*i].fresh).collect();
-                if c.is_empty() {
+                // a job that has certainly exited, or was killed before: a (further) signal must change nothing
+                let gone: Vec<usize> = (0..jobs.len()).filter(|i| jobs[*i].dead || jobs[*i].exited).collect();
+                if !gone.is_empty() && (c.is_empty() || r.chance(1, 3)) {
+                    let i = *r.pick(&gone);
+                    format!("k {} {}", r.pick(&["TERM", "KILL", "HUP", "INT", "USR1", "STOP", "CONT"]), i + 1)
+                } else if c.is_empty() {
                     format!("g {st}")
                 } else {
                     let i = *r.pick(&c);
@@ -785,7 +794,11 @@ fn gen_jobs_program(r: &mut Rng, thorough: bool) -> String {
                             clean = false;
                         }
                         "INT" | "QUIT" if j.igniq => {}
-                        _ => j.fresh = false, // dead; stays in the job table until it is waited for
+                        _ => {
+                            // dead; stays in the job table until it is waited for
+                            j.fresh = false;
+                            j.dead = true;
+                        }
                     }
                     format!("k {sig} {}", i + 1)
                 }
@@ -793,6 +806,9 @@ fn gen_jobs_program(r: &mut Rng, thorough: bool) -> String {
             11 if nopen < 3 => {
                 for j in jobs.iter_mut() {
                     j.fresh = j.fresh && j.stopped; // time passes (a stopped job cannot finish)
+                    // … only once every other process is blocked: what does not sleep has exited by then
+                    j.exited = j.exited || (j.kind != JKind::Nap && !j.dead);
+                    j.dead = j.dead || j.doomed;
                 }
                 new_job(&mut jobs, &mut epoch, JKind::Other, monitor);
                 format!("tw {} {st}", r.pick(&["USR1", "INT", "TERM", "HUP"]))
@@ -810,6 +826,7 @@ fn gen_jobs_program(r: &mut Rng, thorough: bool) -> String {
                 let k = jobs.len();
                 let dies = !(matches!(sig, "INT" | "QUIT") && !monitor);
                 jobs[k - 1].fresh = !dies;
+                jobs[k - 1].doomed = dies;
                 stmts.push(format!("{} {sig} {} {st}", if gap { "tkg" } else { "tk" }, 1000 * k));
                 if r.chance(2, 3) {
                     for j in jobs.iter_mut() {
@@ -1021,7 +1038,11 @@ fn gen_program(r: &mut Rng, thorough: bool) -> String {
     stmts.join("; ")
 }
 
-const FIXED_PROGRAMS: [&str; 34] = [
+const FIXED_PROGRAMS: [&str; 38] = [
+    "bg s3; tw USR1 0; k TERM 1; wj 1; wj 2; w",
+    "bg s3; bg g5; tw HUP 1; k KILL 2; k CONT 1; k STOP 1; wj 2 1; w",
+    "bn 1000 7; k TERM 1; k HUP 1; k KILL 1; k CONT 1; wj 1; w",
+    "tk USR1 1000 4; tw HUP 0; k TERM 1; k INT 1; wj 1; wj 2; w",
     "tk USR1 1000 4; wj 1; w",
     "tkg USR1 1000 4; wj 1; w",
     "tk TERM 1000 4; w",
